@@ -241,3 +241,47 @@ Section Proofs.
     destruct R as [mid [post R]]. rewrite R. eexists. exists mid, post. reflexivity.
   Qed.
 End Proofs.
+
+(** * histories: a run's README.md does not depend on what was there before *)
+Section HistoryProofs.
+  Variable path_join : bytes -> bytes -> bytes.
+
+  Theorem run_overwrites : forall fs before dir content,
+    (forall line, In line (entries content) -> readable fs path_join dir line) ->
+    tool_run path_join fs before dir content =
+    Some (header ++ join [nl] (map (section_of fs path_join dir) (entries content))).
+  Proof.
+    intros fs before dir content H. unfold tool_run.
+    rewrite readme_is_header_then_sections by exact H. reflexivity.
+  Qed.
+
+  Theorem run_failing_keeps : forall fs before dir content line,
+    In line (entries content) -> ~ readable fs path_join dir line ->
+    tool_run path_join fs before dir content = before.
+  Proof.
+    intros fs before dir content line Hin Hl. unfold tool_run.
+    destruct (proj2 (unreadable_fails fs path_join dir content)) as [m Hm]; [eauto|].
+    rewrite Hm. reflexivity.
+  Qed.
+
+  Lemma tool_history_app : forall h1 h2 before dir,
+    tool_history path_join before dir (h1 ++ h2) =
+    tool_history path_join (tool_history path_join before dir h1) dir h2.
+  Proof.
+    induction h1 as [|[fs c] h1 IH]; intros h2 before dir; [reflexivity|]. cbn. apply IH.
+  Qed.
+
+  (** after any history, README.md is the rendering of the LAST run if all its files were
+      readable, and otherwise what the history before that run left *)
+  Theorem history_last_run : forall h fs content before dir,
+    ((forall line, In line (entries content) -> readable fs path_join dir line) ->
+     tool_history path_join before dir (h ++ [(fs, content)]) =
+     Some (header ++ join [nl] (map (section_of fs path_join dir) (entries content)))) /\
+    ((exists line, In line (entries content) /\ ~ readable fs path_join dir line) ->
+     tool_history path_join before dir (h ++ [(fs, content)]) = tool_history path_join before dir h).
+  Proof.
+    intros h fs content before dir. rewrite tool_history_app. cbn [tool_history]. split.
+    - intro H. apply run_overwrites. exact H.
+    - intros [line [Hin Hl]]. eapply run_failing_keeps; eauto.
+  Qed.
+End HistoryProofs.
